@@ -30,7 +30,8 @@ SRC = [
       "_VersionConverter.visit_attribute", "_VersionConverter.visit_graph_or_function",
       "_VersionConverter.visit_model", "convert_version", "AdapterRegistry.lookup_adapters"]),
     ("onnxscript/version_converter/__init__.py",
-     ["ConvertVersionPass.call", "ConvertVersionPass.__init__", "_ConvertVersionPassRequiresInline.call", "convert_version"]),
+     ["ConvertVersionPass.call", "ConvertVersionPass.__init__", "_ConvertVersionPassRequiresInline.call", "convert_version",
+      "_restore_metadata"]),
     ("onnxscript/version_converter/_c_api_utils.py", ["call_onnx_api"]),
     ("onnxscript/_framework_apis/torch_2_9.py", ["convert_version"]),
 ]
@@ -898,6 +899,36 @@ def ort_run(proto, feeds):
         return f"runtime-error: {str(e)[:90]}"
 
 
+def metadata_witness(run: core.Run, stats: Counter):
+    """C15-FALLBACK (fixed in 7ba1077), regression case: metadata_props and value doc strings survive the C-API route."""
+    import onnx
+    from onnx import TensorProto as TP
+    from onnx import helper as h
+    from onnxscript import version_converter as vc
+
+    x = h.make_tensor_value_info("x", TP.FLOAT, [2])
+    x.doc_string = "xdoc"
+    n1 = h.make_node("Relu", ["x"], ["t"], name="relu0")
+    n1.metadata_props.add(key="nk", value="nv")
+    n2 = h.make_node("Neg", ["t"], ["y"], name="neg0")
+    g = h.make_graph([n1, n2], "g", [x], [h.make_tensor_value_info("y", TP.FLOAT, [2])])
+    g.metadata_props.add(key="gk", value="gv")
+    m = h.make_model(g, opset_imports=[h.make_opsetid("", 20)], ir_version=10)
+    try:
+        vc.convert_version(m, 19, fallback=True)
+    except Exception as ex:  # noqa: BLE001
+        run.violation({"witness": "C15-FALLBACK"}, f"metadata witness: convert_version(20->19, fallback=True) raised {type(ex).__name__}")
+        return
+    got = ({p.key: p.value for p in m.graph.metadata_props}, {p.key: p.value for p in m.graph.node[0].metadata_props},
+           m.graph.input[0].doc_string, {o.domain: o.version for o in m.opset_import}.get(""))
+    ok = got == ({"gk": "gv"}, {"nk": "nv"}, "xdoc", 19)
+    stats["witness_C15-FALLBACK_" + ("holds" if ok else "fails")] += 1
+    if not ok:
+        run.violation({"witness": "C15-FALLBACK", "got": str(got)},
+                      f"witness C15-FALLBACK fails on the real code: after convert_version(Relu@20 with metadata, 19, fallback=True) "
+                      f"(graph metadata, node metadata, input doc string, opset) = {got}")
+
+
 def replay_witnesses(run: core.Run, stats: Counter):
     """Each witness: real conversion through the ModelProto entry, then checker + onnxruntime before/after."""
     import onnx
@@ -1265,6 +1296,7 @@ def main(run: core.Run) -> None:
                 numeric_fail.append((c, f"onnx.checker rejects the converted model: {str(e)[:120]}"))
     # 6. witnesses of the listed findings, on the real code
     replay_witnesses(run, stats)
+    metadata_witness(run, stats)
 
     for c in cases[:4] + nat[:2]:
         run.sample({k: c[k] for k in ("entry", "fb", "target", "decl", "nodes")})
